@@ -904,7 +904,15 @@ class Interp:
                 return SymList(z3.If(n >= 0, n, 0), lambda i: x, elem_sort=(x.sort() if isinstance(x, Sym) else None))
             if isinstance(a, (list, tuple)) or isinstance(b, (list, tuple)):
                 raise Unsupported("sequence arithmetic with symbolic operand")
-            ea, eb = to_z3(a, Int), to_z3(b, Int)
+            real = any(isinstance(x, Sym) and x.sort() == z3.RealSort() for x in (a, b))
+            if real:
+                ea, eb = (x.e if isinstance(x, Sym) else z3.RealVal(x) for x in (a, b))
+                if ea.sort() != z3.RealSort():
+                    ea = z3.ToReal(ea)
+                if eb.sort() != z3.RealSort():
+                    eb = z3.ToReal(eb)
+            else:
+                ea, eb = to_z3(a, Int), to_z3(b, Int)
             if isinstance(op, ast.Add):
                 return Sym(z3.simplify(ea + eb))
             if isinstance(op, ast.Sub):
